@@ -88,6 +88,7 @@ pub fn natives() -> Vec<Spec> {
 		out.push(Spec::Native(Native::VecsRefs(k)));
 		out.push(Spec::Native(Native::OwnedDescIn(k, 2)));
 	}
+	out.push(Spec::Native(Native::VecsFromRef));
 	out.push(Spec::Native(Native::BoxedTupVecs(vec![1, 0], vec![2, 0])));
 	out.push(Spec::Native(Native::BoxedTupVecs(vec![], vec![])));
 	out.push(Spec::Native(Native::BoxedTupRRP(1, 0, 0)));
@@ -112,6 +113,12 @@ pub fn natives() -> Vec<Spec> {
 		}
 		for n in 1..=7 {
 			out.push(Spec::Native(Native::TupN(which, n)));
+		}
+		if which < 3 {
+			for via in [1u8, 2] {
+				out.push(Spec::Native(Native::MutRefsVia(which, 2, via)));
+				out.push(Spec::Native(Native::MutRefsVia(which, 3, via)));
+			}
 		}
 		out.push(Spec::Native(Native::ZstOwned(which, true)));
 		out.push(Spec::Native(Native::ZstOwned(which, false)));
